@@ -17,6 +17,12 @@ C={
 "C03":("model_checking","bounded-exhaustive exploration of tag soup and of a well-nested foreign-content grammar on the real tokenizer (TransformController seam and public handlers), each execution compared with html5ever's tokenizer+tree builder",
  "For every enumerated document (F<=3 / contexts x F<=2 / G<=6 nodes / 12 element names x every attribute-syntax sequence<=4), every capture set, strict on/off and every single cut: a successful strict run yields exactly html5ever's token list, output == input and equals the non-strict run; a strict failure is a ParsingAmbiguity at a text-mode-switching tag in a select/template-in-select/frameset context.",
  "html5ever 0.39 is the trusted WHATWG reference. One listed known finding (CDATA directly inside an integration point) with a structural signature.","DESIGN.md §4 C03"),
+"C11":("fault_enumeration","exhaustive fault enumeration on the real rewriter: a failure injected at every handler invocation index and every memory limit value (0..M0) for every enumerated (input, schedule, handler set, flag combination); oracle = reconstruction equality",
+ "For every enumerated execution and every single fault point, with the matching graceful flag the sink (markers stripped) followed by the unwritten input equals the input, bail-out markers appear exactly once in registration order between a prefix of the fault-free output and the raw remainder; without the flag nothing is flushed and bail-out handlers do not run; ambiguity errors are never recovered.",
+ "Faults are injected by a failing handler and by the accounting limit (not by a failing allocator). One listed known finding (bytes of a partial character held by the text decoder are lost).","DESIGN.md §4 C11"),
+"C12":("model_checking","explicit enumeration of every call history (write*, end) up to a depth over a 10-chunk alphabet x configurations x faults, with a sink-protocol monitor automaton running on every execution of the real rewriter",
+ "No call history of depth <= 5 (quick) / 7 (thorough) over the chunk alphabet, under 7 configurations, with/without end(), and with a fault at every handler index or one of 4 memory limits, violates the sink protocol (encoding first, exactly one zero-length chunk as the last call of a successful end(), silence after an error, panic on reuse, prefix property without graceful flags).",
+ "The monitor is transcribed from the statement; histories beyond the depth and chunks outside the alphabet are not covered.","DESIGN.md §4 C12"),
 "C01":("model_checking","bounded-exhaustive exploration of the real rewriter: all strings over two adversarial alphabets x observer configs x all 1-/2-cut, byte-wise and empty-write schedules; oracle = byte identity",
  "No execution of the real rewriter, over every string of the fragment alphabet (len<=3 quick/<=4 thorough) and byte alphabet (len<=4/<=6), every observer handler set of a 16-entry menu, strict on/off, 4 encodings and every listed schedule, emits anything but the input (or a prefix on a strict-mode ambiguity error).",
  "Coverage statement inside the stated alphabets/bounds only; the round-trip exception is decided by encoding_rs.","DESIGN.md §4 C01"),
